@@ -80,6 +80,19 @@ Theorem C14_lin_check_complete : forall h0 g same, (forall e, same e e = true) -
 Proof. exact lin_check_complete. Qed.
 Print Assumptions C14_lin_check_complete.
 
+(* ... including the third constraint the harness applies ([parents_ok]): whatever parent is attributed to a
+   call - none, or a call of the same goroutine that was still open when this one was invoked - the
+   critical-section order places the parent first *)
+Theorem C14_parents_ok_complete : forall h0 g parents, reachable (init_cfg h0) g ->
+  (forall i q, nth_error parents i = Some q -> q <> 0 ->
+     exists t c c', nth_error (map l_cid (lin g)) (N.to_nat (q - 1)) = Some c /\
+                    nth_error (map l_cid (lin g)) i = Some c' /\
+                    exists o o' h1 h2 h3, hist g = h1 ++ HInv t c o :: h2 ++ HInv t c' o' :: h3 /\
+                                          (forall r, ~ In (HRes t c r) h2)) ->
+  parents_ok parents (iotaN (length (lin g))) = true.
+Proof. exact parents_ok_complete. Qed.
+Print Assumptions C14_parents_ok_complete.
+
 (* non-vacuity: a schedule in which Stop(7) by goroutine 0, Collect by goroutine 2 and Close by goroutine
    1 overlap on the registered transaction 7, with a handler calling back (Start 8) from Stop's event:
    Close wins the race for the mutex, emits the only terminal event of 7 under the mutex, Stop finds
@@ -152,3 +165,10 @@ Example C14_lin_check_complete_nonvacuous :
   | None => False
   end.
 Proof. vm_compute. repeat split. Qed.
+
+(* non-vacuity of C14_parents_ok_complete: in the reentrant schedule the nested Start(8) (third in the order) has
+   the Stop(7) (second) as its parent; that attribution meets the hypothesis and the check accepts it, while
+   the impossible attribution "the Stop was made from a handler of the nested Start" is rejected *)
+Example C14_parents_nonvacuous :
+  parents_ok [0; 0; 2] (iotaN 3) = true /\ parents_ok [0; 3; 0] (iotaN 3) = false.
+Proof. vm_compute. split; reflexivity. Qed.
